@@ -98,7 +98,9 @@ func runC11(rc *sim.RunCtx) {
 			if it.Fields == nil {
 				it.Fields = map[string]string{}
 			}
-			it.Fields["nonalpha"] = fmt.Sprint(na)
+			if _, given := it.Fields["nonalpha"]; !given || ps != "" {
+				it.Fields["nonalpha"] = fmt.Sprint(na)
+			}
 			it.Fields["special"] = fmt.Sprint(spc)
 		}
 	}
